@@ -81,9 +81,11 @@ func (d *deduplicator) notifyDKGResultSubmitted(
 ) bool {
 	d.dkgResultHashCache.Sweep()
 
-	cacheKey := newDKGResultSeed.Text(16) +
-		hex.EncodeToString(newDKGResultHash[:]) +
-		strconv.Itoa(int(newDKGResultBlock))
+	// The components have variable length so they must be separated;
+	// otherwise different (seed, hash, block) triples can produce the same key.
+	cacheKey := newDKGResultSeed.Text(16) + ":" +
+		hex.EncodeToString(newDKGResultHash[:]) + ":" +
+		strconv.FormatUint(newDKGResultBlock, 10)
 
 	// If the key is not in the cache, that means the result was not handled
 	// yet and the client should proceed with the execution.
